@@ -13,7 +13,6 @@ import (
 	"crypto/sha1"
 	"crypto/sha256"
 	"crypto/sha512"
-	"math/big"
 )
 
 // ---------------------------------------------------------------------------
@@ -479,55 +478,41 @@ func digestFor(id byte, data []byte) (crypto.Hash, []byte, bool) {
 	return 0, nil, false
 }
 
-// lenientECDSA extracts (r,s) from SEQUENCE{INTEGER,INTEGER,...} at the start
-// of sig, tolerating everything a sloppy BER reader might tolerate (trailing
-// bytes after or inside the SEQUENCE, non-minimal lengths and integers). It only
-// widens the band in which either verdict of the implementation is accepted.
-func lenientECDSA(sig []byte) (r, s *big.Int, ok bool) {
-	tlv := func(b []byte, tag byte) (body, rest []byte, ok bool) {
-		if len(b) < 2 || b[0] != tag {
-			return nil, nil, false
+// derPrefixLen: the length of the first element of sig when it is a SEQUENCE
+// whose header is DER (definite, minimal length); 0 otherwise.
+func derPrefixLen(sig []byte) int {
+	if len(sig) < 2 || sig[0] != 0x30 {
+		return 0
+	}
+	l, off := int(sig[1]), 2
+	switch {
+	case l < 0x80:
+	case l == 0x81:
+		if len(sig) < 3 || sig[2] < 0x80 {
+			return 0
 		}
-		l := int(b[1])
-		off := 2
-		if l&0x80 != 0 {
-			n := l & 0x7f
-			if n == 0 || n > 4 || len(b) < 2+n {
-				return nil, nil, false
-			}
-			l = 0
-			for _, x := range b[2 : 2+n] {
-				l = l<<8 | int(x)
-			}
-			off = 2 + n
+		l, off = int(sig[2]), 3
+	case l == 0x82:
+		if len(sig) < 4 || sig[2] == 0 {
+			return 0
 		}
-		if l < 0 || len(b)-off < l {
-			return nil, nil, false
-		}
-		return b[off : off+l], b[off+l:], true
+		l, off = int(sig[2])<<8|int(sig[3]), 4
+	default:
+		return 0
 	}
-	seq, _, ok := tlv(sig, 0x30)
-	if !ok {
-		return nil, nil, false
+	if off+l > len(sig) {
+		return 0
 	}
-	rb, rest, ok := tlv(seq, 0x02)
-	if !ok {
-		return nil, nil, false
-	}
-	sb, _, ok := tlv(rest, 0x02)
-	if !ok {
-		return nil, nil, false
-	}
-	if (len(rb) > 0 && rb[0]&0x80 != 0) || (len(sb) > 0 && sb[0]&0x80 != 0) {
-		return nil, nil, false // negative: never a valid signature
-	}
-	return new(big.Int).SetBytes(rb), new(big.Int).SetBytes(sb), true
+	return off + l
 }
 
 // refVerify answers, with the standard library only, whether sig is a
 // signature by key over input under the algorithms the two TLS code points
-// name. strict: the exact (DER) form verifies. lenient ⊇ strict: a valid (r,s)
-// is at least embedded in a sloppily encoded ECDSA signature.
+// name. strict: the exact (DER) form verifies. lenient ⊇ strict: additionally a
+// strict DER ECDSA-Sig-Value that verifies, FOLLOWED by further bytes (the only
+// looseness the unchanged verifier shows, and one it logs on purpose). Nothing
+// else is tolerated: no non-minimal lengths or integers, no extra elements
+// inside the SEQUENCE.
 func refVerify(key any, hashID, algID byte, input, sig []byte) (strict, lenient bool, why string) {
 	h, digest, ok := digestFor(hashID, input)
 	if !ok {
@@ -548,10 +533,8 @@ func refVerify(key any, hashID, algID byte, input, sig []byte) (strict, lenient 
 		}
 		strict = ecdsa.VerifyASN1(k, digest, sig)
 		lenient = strict
-		if !strict {
-			if r, s, ok := lenientECDSA(sig); ok {
-				lenient = ecdsa.Verify(k, digest, r, s)
-			}
+		if n := derPrefixLen(sig); !strict && n > 0 && n < len(sig) {
+			lenient = ecdsa.VerifyASN1(k, digest, sig[:n])
 		}
 		return strict, lenient, "the signature does not verify"
 	}
